@@ -29,7 +29,7 @@ def gen_ovr(rng, s):
         return {"k": "const", "c": rng.randint(500, 999)}
     if k == "addkey":
         return {"k": "addkey", "key": rng.choice(keys), "n": 1000}
-    return {"k": "iflt", "n": rng.randint(5, 30), "c": rng.randint(500, 999)}
+    return {"k": "iflt", "n": rng.randint(5, 30), "c": rng.randint(500, 999), "pipe": rng.random() < 0.5}
 
 
 def gen_case(rng, cid, mode):
